@@ -445,3 +445,149 @@ class EndToEnd(EnumContract):
 
 
 REGISTRY.append(EndToEnd())
+
+
+# =======================================================================================
+# C14: scale statistics against respondent-level statistics
+
+
+def gen_scale_case(rnd):
+    nd = rnd.choice([1, 2, 2, 2])
+    dims = [gen_dim(rnd, "CAT", "ab"[i]) for i in range(nd)]
+    for d in dims:
+        for c in d["cats"]:
+            r = rnd.random()
+            c["nv"] = None if r < 0.25 else rnd.choice([-2, 0, 1, 1, 2, 3, 5, 2.5])
+    weighted = rnd.random() < 0.4
+    rs = gen_respondents(rnd, dims, rnd.choice([0, 4, 9, 16, 30]), weighted)
+    tr = {}
+    for side, d in (("rows_dimension", dims[0]),) + ((("columns_dimension", dims[1]),) if nd == 2 else ()):
+        t = {}
+        ids = [c["id"] for c in d["cats"]]
+        if rnd.random() < 0.4:
+            t["insertions"] = [{"function": "subtotal", "name": "s", "anchor": rnd.choice(["top", "bottom"] + ids),
+                                "args": rnd.sample(ids, min(len(ids), rnd.choice([1, 2]))), "id": 1}]
+        if rnd.random() < 0.3:
+            t["elements"] = {str(rnd.choice(ids)): {"hide": True}}
+        if t:
+            tr[side] = t
+    return dict(dims=dims, rs=rs, weighted=weighted, transforms=tr)
+
+
+def wstats(pairs):
+    """pairs: [(value, weight)] -> (mean, population sd, total weight) or NaNs"""
+    tot = math.fsum(w for _, w in pairs)
+    if tot == 0:
+        return float("nan"), float("nan"), tot
+    mean = math.fsum(v * w for v, w in pairs) / tot
+    var = math.fsum(w * (v - mean) ** 2 for v, w in pairs) / tot
+    return mean, math.sqrt(var), tot
+
+
+class ScaleStats(EnumContract):
+    name = "e2e:scale mean / sd / std-err / median vs respondent-level statistics (slices and strands)"
+    props = ("C14", "C05")
+    bound = "1-D and 2-D CAT responses, <= 4 categories with partial / repeated / negative / unsorted numeric values, <= 30 respondents, optional subtotal and hidden element; seeded sample"
+    clauses = ("scale-mean", "scale-sd", "scale-stderr", "scale-median", "scale-margins-invariant", "strand-scale")
+
+    def cases(self, cfg, seed, thorough):
+        rnd = random.Random(6000 + seed)
+        for _ in range(3000 if thorough else 400):
+            yield gen_scale_case(rnd)
+
+    def check_case(self, case, cfg):
+        import numpy as np
+        import warnings
+        from cr.cube.cube import Cube
+
+        warnings.simplefilter("ignore")
+        dims, rs, weighted, tr = case["dims"], case["rs"], case["weighted"], case["transforms"]
+        bad = set()
+        cube = Cube(tabulate(dims, rs, weighted), transforms=copy.deepcopy(tr), population=1000)
+        p = cube.partitions[0]
+        if len(dims) == 1:
+            d = dims[0]
+            V = valid_elems(d)
+            pairs = [(d["cats"][r["a"][0]]["nv"], r["w"]) for r in rs if r["a"][0] in V and d["cats"][r["a"][0]]["nv"] is not None]
+            has_nv = any(d["cats"][k]["nv"] is not None for k in V)
+            mean, sd, tot = wstats(pairs)
+
+            def same(a, b):
+                if a is None or (isinstance(a, float) and a != a):
+                    return b != b
+                return abs(a - b) <= 1e-9 * max(1, abs(b))
+
+            if not has_nv or tot == 0:
+                if p.scale_mean is not None and not (isinstance(p.scale_mean, float) and p.scale_mean != p.scale_mean):
+                    bad.add("strand-scale")
+            else:
+                if not same(p.scale_mean, mean) or not same(p.scale_std_dev, sd) or not same(p.scale_std_err, sd / math.sqrt(tot)):
+                    bad.add("strand-scale")
+                if not weighted:
+                    exp = float(np.median([v for v, w in pairs for _ in range(int(w))]))
+                    if not same(p.scale_median, exp):
+                        bad.add("strand-scale")
+            return sorted(bad)
+        rd, cd = dims
+        R, C = valid_elems(rd), valid_elems(cd)
+        if not R or not C:
+            return []
+        ro = [int(i) for i in p.row_order()]
+        co = [int(i) for i in p.column_order()]
+        r_ins = (tr.get("rows_dimension") or {}).get("insertions") or []
+        c_ins = (tr.get("columns_dimension") or {}).get("insertions") or []
+
+        def members(d, ins, o, V):
+            """categories merged in display vector o (>= 0 base element, < 0 subtotal)"""
+            if o >= 0:
+                return [V[o]]
+            ids = ins[o + len(ins)]["args"]
+            return [k for k in V if d["cats"][k]["id"] in ids]
+
+        def stats_for(vec_d, vec_members, opp_d, opp_V, vi, oi):
+            pairs = [(opp_d["cats"][r["a"][oi]]["nv"], r["w"]) for r in rs
+                     if r["a"][vi] in vec_members and r["a"][oi] in opp_V and opp_d["cats"][r["a"][oi]]["nv"] is not None]
+            margin = wsum(rs, lambda r: r["a"][vi] in vec_members and r["a"][oi] in opp_V)
+            return pairs, margin
+
+        for name_pre, order, vec_d, ins, V, opp_d, opp_V, vi, oi in (
+            ("rows", ro, rd, r_ins, R, cd, C, 0, 1), ("columns", co, cd, c_ins, C, rd, R, 1, 0)
+        ):
+            has_nv = any(opp_d["cats"][k]["nv"] is not None for k in opp_V)
+            got_mean = getattr(p, name_pre + "_scale_mean")
+            if not has_nv:
+                if got_mean is not None:
+                    bad.add("scale-mean")
+                continue
+            got_sd = getattr(p, name_pre + "_scale_mean_stddev")
+            got_se = getattr(p, name_pre + "_scale_mean_stderr")
+            got_med = getattr(p, name_pre + "_scale_median")
+            for pos, o in enumerate(order):
+                pairs, margin = stats_for(vec_d, members(vec_d, ins, o, V), opp_d, opp_V, vi, oi)
+                mean, sd, tot = wstats(pairs)
+
+                def same(a, b):
+                    return (a != a and b != b) or abs(a - b) <= 1e-9 * max(1, abs(b))
+
+                if not same(float(got_mean[pos]), mean):
+                    bad.add("scale-mean")
+                if not same(float(got_sd[pos]), sd):
+                    bad.add("scale-sd")
+                se = sd / math.sqrt(margin) if margin > 0 and sd == sd else float("nan")
+                if not same(float(got_se[pos]), se):
+                    bad.add("scale-stderr")
+                if not weighted:
+                    exp = float(np.median([v for v, w in pairs for _ in range(int(w))])) if pairs else float("nan")
+                    if not same(float(got_med[pos]), exp):
+                        bad.add("scale-median")
+        # scalar statistics do not depend on display transforms (C05)
+        p0 = Cube(tabulate(dims, rs, weighted), population=1000).partitions[0]
+        for nm in ("columns_scale_mean_margin", "rows_scale_mean_margin", "columns_scale_median_margin", "rows_scale_median_margin"):
+            a, b = getattr(p, nm), getattr(p0, nm)
+            ok = (a is None and b is None) or (a is not None and b is not None and ((a != a and b != b) or abs(a - b) <= 1e-9 * max(1, abs(b))))
+            if not ok:
+                bad.add("scale-margins-invariant")
+        return sorted(bad)
+
+
+REGISTRY.append(ScaleStats())
